@@ -484,6 +484,887 @@ def generators(repo):
     return "\n".join(defs), handlers
 
 
+
+# =============================================================================================== dispatch
+GLUE_3T = {
+    0: "if self._diagonalized:\n    if verbose > 0:\n        print('Diagonalizing aggregate')\n    self.diagonalize()\n    if verbose > 0:\n        print('..done')",
+    1: "pop_tol = ptol",
+    2: "dip_tol = numpy.sqrt(self.D2_max) * dtol",
+    3: "evf_tol = etol",
+    4: "if not isinstance(ptype, (tuple, list)):\n    ptype_tuple = (ptype,)\nelse:\n    ptype_tuple = ptype",
+    5: "lst = []",
+    6: "try:\n    eUt2 = eUt.at(t2)\n    eUt2_dat = numpy.zeros(eUt2.data.shape, dtype=eUt2.data.dtype)\n    HH = eUt.get_Hamiltonian()\n"
+       "    with eigenbasis_of(HH):\n        eUt2_dat[:, :, :, :] = eUt2.data\nexcept:\n    eUt2 = eUt\n"
+       "    eUt2_dat = numpy.zeros(eUt2.data.shape, dtype=eUt2.data.dtype)\n    with eigenbasis_of(ham):\n        eUt2_dat[:, :, :, :] = eUt2.data",
+    8: "if lab is not None:\n    for l in lst:\n        l.orientational_averaging(lab)",
+    9: "return lst",
+}
+
+
+def dispatch(repo):
+    """liouville_pathways_3T: the glue statements are matched verbatim; the loop over the requested types is translated:
+    string compared, generator called, every argument handed to the parameter of the same name (eUt2 <- eUt2_dat)"""
+    fn = _src_of(repo + AGG, "AggregateSpectroscopy.liouville_pathways_3T")
+    args = [a.arg for a in fn.args.args]
+    if args != ["self", "ptype", "eUt", "ham", "t2", "dtol", "ptol", "etol", "verbose", "lab"]:
+        raise Untranslatable("liouville_pathways_3T: signature %r" % args)
+    ss = [s for s in _strip(fn.body) if not _is_print_block(s, {"verbose"})]
+    if len(ss) != 10:
+        raise Untranslatable("liouville_pathways_3T: %d statements where 10 are expected" % len(ss))
+    for k, want in GLUE_3T.items():
+        if U(ss[k]) != want:
+            raise Untranslatable("liouville_pathways_3T: statement %d is `%s`" % (k, U(ss[k])[:70]))
+    loop = ss[7]
+    if not (isinstance(loop, ast.For) and U(loop.iter) == "ptype_tuple" and isinstance(loop.target, ast.Name) and not loop.orelse
+            and len(_strip(loop.body)) == 1):
+        raise Untranslatable("liouville_pathways_3T: loop over the pathway types")
+    ptp = loop.target.id
+    gens = dict(GENERATORS)
+    node = _strip(loop.body)[0]
+    arms = []
+    while True:
+        if not (isinstance(node, ast.If) and isinstance(node.test, ast.Compare) and len(node.test.ops) == 1
+                and isinstance(node.test.ops[0], ast.Eq)):
+            raise Untranslatable("liouville_pathways_3T: dispatch test %s" % U(node)[:60])
+        a, b = node.test.left, node.test.comparators[0]
+        if isinstance(b, ast.Name):
+            a, b = b, a
+        if not (isinstance(a, ast.Name) and a.id == ptp and isinstance(b, ast.Constant) and isinstance(b.value, str)):
+            raise Untranslatable("liouville_pathways_3T: dispatch test %s" % U(node.test))
+        body = _strip(node.body)
+        if not (len(body) == 1 and isinstance(body[0], ast.Expr) and isinstance(body[0].value, ast.Call)
+                and isinstance(body[0].value.func, ast.Name) and body[0].value.func.id in gens and not body[0].value.keywords):
+            raise Untranslatable("liouville_pathways_3T: arm of %r: %s" % (b.value, U(node.body[0])[:60]))
+        call = body[0].value
+        callee = _src_of(repo + AGG, call.func.id)
+        params = [x.arg for x in callee.args.args]
+        given = [x.id if isinstance(x, ast.Name) else U(x) for x in call.args]
+        want = ["eUt2_dat" if q == "eUt2" else q for q in params]
+        if given != want:
+            raise Untranslatable("liouville_pathways_3T: %s is called with %r for the parameters %r" % (call.func.id, given, params))
+        arms.append((b.value, gens[call.func.id]))
+        if len(node.orelse) == 1 and isinstance(node.orelse[0], ast.If):
+            node = node.orelse[0]
+            continue
+        els = _strip(node.orelse)
+        if not (len(els) == 1 and isinstance(els[0], ast.Raise)):
+            raise Untranslatable("liouville_pathways_3T: an unknown pathway type does not raise")
+        break
+    chain = "".join("if String.eqb ptp %s then Some (g_%s lf Sy) else " % (_coqstr(s), tag) for s, tag in arms) + "None"
+    return ("  (* liouville_pathways_3T: dispatch on the pathway-type string *)\n"
+            "  Definition g_dispatch {A} (lf : xcall -> list xop -> list A) (Sy : sys) (ptp : string) : option (list A) :=\n    %s.\n" % chain)
+
+
+def type_tuples(repo):
+    """MockTwoDResponseCalculator.calculate_one_system: the pathway types requested with and without excited-state absorption"""
+    fn = _src_of(repo + MOCK, "MockTwoDResponseCalculator.calculate_one_system")
+    ss = _strip(fn.body)
+    glue = ["has_ESA = True", "H1 = sys.get_Hamiltonian()", "if H1.dim == eUt.dim:\n    has_ESA = False"]
+    texts = [U(s) for s in ss]
+    try:
+        k = texts.index(glue[0])
+    except ValueError:
+        raise Untranslatable("calculate_one_system: `has_ESA = True` not found")
+    if texts[k:k + 3] != glue:
+        raise Untranslatable("calculate_one_system: decision on excited-state absorption: %s" % " / ".join(texts[k:k + 3])[:120])
+    if any("has_ESA" in x for x in texts[:k]) or len(ss) <= k + 3:
+        raise Untranslatable("calculate_one_system: has_ESA")
+    tpl = ast.parse("if has_ESA:\n    pws = sys.liouville_pathways_3T(ptype=H_esa, eUt=Uin, ham=H, t2=t2, lab=lab, dtol=dtol)\n"
+                    "else:\n    pws = sys.liouville_pathways_3T(ptype=H_noesa, eUt=Uin, ham=H, t2=t2, lab=lab, dtol=dtol)").body[0]
+    env = {}
+    unify(tpl, ss[k + 3], env, "calculate_one_system")
+    for later in texts[k + 4:]:
+        if "has_ESA" in later:
+            raise Untranslatable("calculate_one_system: has_ESA used after the pathways were generated")
+    out = []
+    for h, nm in (("H_esa", "g_types_esa"), ("H_noesa", "g_types_noesa")):
+        node = env[h]
+        if not (isinstance(node, (ast.Tuple, ast.List)) and all(isinstance(e, ast.Constant) and isinstance(e.value, str) for e in node.elts)):
+            raise Untranslatable("calculate_one_system: pathway types %s" % U(node))
+        out.append("  Definition %s : list string := [%s].\n" % (nm, "; ".join(_coqstr(e.value) for e in node.elts)))
+    return "".join(out)
+
+
+DISPATCH_LEMMAS = """
+  (* what calculate_one_system requests, through the dispatch, is gen6 (with two-exciton states) / gen4 (without) *)
+  Lemma g_esa_is_gen6 (mk : @maker R) (Sy : sys) :
+    run3T (g_dispatch (fun c ops => [xleaf mk c ops]) Sy) g_types_esa = Some (gen6_with mk Sy).
+  Proof.
+    unfold g_types_esa, g_dispatch. cbn [run3T String.eqb Ascii.eqb Bool.eqb].
+    rewrite g_R1g_is_model, g_R2g_is_model, g_R3g_is_model, g_R4g_is_model, g_R1f_is_model, g_R2f_is_model.
+    unfold gen6_with, gen4_with. rewrite ?app_nil_r, <- ?app_assoc. reflexivity.
+  Qed.
+  Lemma g_noesa_is_gen4 (mk : @maker R) (Sy : sys) :
+    run3T (g_dispatch (fun c ops => [xleaf mk c ops]) Sy) g_types_noesa = Some (gen4_with mk Sy).
+  Proof.
+    unfold g_types_noesa, g_dispatch. cbn [run3T String.eqb Ascii.eqb Bool.eqb].
+    rewrite g_R1g_is_model, g_R2g_is_model, g_R3g_is_model, g_R4g_is_model.
+    unfold gen4_with. rewrite ?app_nil_r, <- ?app_assoc. reflexivity.
+  Qed.
+  (* the same with every pathway built by the object machine, for systems whose only ground state is state 0 *)
+  Lemma g_esa_runs (Sy : sys) : ground0 Sy -> run3T (g_dispatch (xobj Sy) Sy) g_types_esa = Some (gen6 Sy).
+  Proof.
+    intros H. unfold g_types_esa, g_dispatch. cbn [run3T String.eqb Ascii.eqb Bool.eqb].
+    rewrite (g_R1g_runs Sy H), (g_R2g_runs Sy H), (g_R3g_runs Sy H), (g_R4g_runs Sy H), (g_R1f_runs Sy H), (g_R2f_runs Sy H).
+    unfold gen6, gen6_with, gen4_with. rewrite ?app_nil_r, <- ?app_assoc. reflexivity.
+  Qed.
+  Lemma g_noesa_runs (Sy : sys) : ground0 Sy -> run3T (g_dispatch (xobj Sy) Sy) g_types_noesa = Some (gen4 Sy).
+  Proof.
+    intros H. unfold g_types_noesa, g_dispatch. cbn [run3T String.eqb Ascii.eqb Bool.eqb].
+    rewrite (g_R1g_runs Sy H), (g_R2g_runs Sy H), (g_R3g_runs Sy H), (g_R4g_runs Sy H).
+    unfold gen4, gen4_with. rewrite ?app_nil_r, <- ?app_assoc. reflexivity.
+  Qed.
+"""
+
+
+# =============================================================================================== the pathway object
+class _Norm(ast.NodeTransformer):
+    """harmless variants brought to one form before unification: `x = x + c` / `x = c + x` -> `x += c`;
+    `v != self.current[k]` / `v == self.current[k]` -> the subscript on the left"""
+
+    def visit_Assign(self, n):
+        self.generic_visit(n)
+        if len(n.targets) == 1 and isinstance(n.value, ast.BinOp) and isinstance(n.value.op, ast.Add):
+            tgt = ast.dump(n.targets[0]).replace("Store()", "Load()")
+            for a, b in ((n.value.left, n.value.right), (n.value.right, n.value.left)):
+                if ast.dump(a) == tgt and isinstance(b, ast.Constant):
+                    return ast.copy_location(ast.AugAssign(target=n.targets[0], op=ast.Add(), value=b), n)
+        return n
+
+    def visit_Compare(self, n):
+        self.generic_visit(n)
+        if len(n.ops) == 1 and isinstance(n.ops[0], (ast.Eq, ast.NotEq)):
+            l, r = n.left, n.comparators[0]
+            if U(r).startswith("self.current[") and not U(l).startswith("self.current["):
+                return ast.copy_location(ast.Compare(left=r, ops=n.ops, comparators=[l]), n)
+        return n
+
+
+def _match(repo_file, qual, template_src):
+    """bindings of the holes of the template in the current source (argument names and statement skeleton must agree)"""
+    fn = _Norm().visit(_src_of(repo_file, qual))
+    tfn = ast.parse(template_src).body[0]
+    env = {}
+    unify([a.arg for a in tfn.args.args], [a.arg for a in fn.args.args], env, qual + ".args")
+    if fn.args.vararg or fn.args.kwarg or fn.args.kwonlyargs:
+        raise Untranslatable("%s: signature" % qual)
+    unify(tfn.body, fn.body, env, qual)
+    return env
+
+
+class SE:
+    """expressions over the state of the pathway object and the locals of a method"""
+
+    def __init__(self, nats=None, zs=None, rs=None):
+        self.nats = {"self.nint": "(l_nint l)", "self.ne": "(l_ne l)", "self.nrel": "(l_nrel l)",
+                     "self.order": "(c_order c)", "self.relax_order": "(c_relax c)"}
+        self.nats.update(nats or {})
+        self.zs = dict(zs or {})
+        self.rs = dict(rs or {})
+
+    def nat(self, node):
+        k = U(node)
+        if k in self.nats:
+            return self.nats[k]
+        if isinstance(node, ast.Constant) and isinstance(node.value, int) and not isinstance(node.value, bool) and node.value >= 0:
+            return "%d%%nat" % node.value
+        if isinstance(node, ast.BinOp) and isinstance(node.op, ast.Add):
+            return "(%s + %s)%%nat" % (self.nat(node.left), self.nat(node.right))
+        raise Untranslatable("index expression %s" % k)
+
+    def z(self, node):
+        k = U(node)
+        if k in self.zs:
+            return self.zs[k]
+        if isinstance(node, ast.Constant) and isinstance(node.value, int) and not isinstance(node.value, bool):
+            return "(%d)%%Z" % node.value
+        if isinstance(node, ast.UnaryOp) and isinstance(node.op, ast.USub):
+            return "(- %s)%%Z" % self.z(node.operand)
+        if isinstance(node, ast.Call) and U(node.func) in ("abs", "numpy.abs") and len(node.args) == 1 and not node.keywords:
+            return "(Z.abs %s)" % self.z(node.args[0])
+        if isinstance(node, ast.BinOp):
+            op = {ast.Add: "+", ast.Sub: "-", ast.Mult: "*", ast.FloorDiv: "/"}.get(type(node.op))
+            if op:
+                return "(%s %s %s)%%Z" % (self.z(node.left), op, self.z(node.right))
+        raise Untranslatable("integer expression %s" % k)
+
+    def r(self, node):
+        k = U(node)
+        if k in self.rs:
+            return self.rs[k]
+        if isinstance(node, ast.BinOp):
+            op = {ast.Add: "+", ast.Sub: "-", ast.Mult: "*"}.get(type(node.op))
+            if op:
+                return "(%s %s %s)" % (self.r(node.left), op, self.r(node.right))
+        if isinstance(node, ast.UnaryOp) and isinstance(node.op, ast.USub) and not isinstance(node.operand, ast.Constant):
+            return "(- %s)" % self.r(node.operand)
+        return Gen.const(node)
+
+
+def _same(env, *holes):
+    d = [ast.dump(env[h]) for h in holes]
+    if len(set(d)) != 1:
+        raise Untranslatable("the expressions %s differ: %s" % (", ".join(holes), " / ".join(U(env[h]) for h in holes)))
+    return env[holes[0]]
+
+
+def _comp(node, what):
+    """component 0 / 1 of a pair"""
+    v = _intconst(node, what)
+    if v not in (0, 1):
+        raise Untranslatable("%s: component %d of a pair" % (what, v))
+    return "fst" if v == 0 else "snd"
+
+
+T_INIT = """
+def __init__(self, ptype, sinit, aggregate, order, pname, relax_order, popt_band):
+    if not aggregate:
+        raise Exception(H_msg)
+    self.sinit = numpy.zeros(2, dtype=numpy.int16)
+    self.sinit[0] = sinit
+    self.sinit[1] = sinit
+    self.order = order
+    self.relax_order = relax_order
+    self.event = [None] * H_nevent
+    self.pathway_type = ptype
+    self.pathway_name = pname
+    self.aggregate = aggregate
+    self.current = numpy.zeros(2, dtype=numpy.int16)
+    self.current[H_c0] = H_cv0
+    self.current[H_c1] = H_cv1
+    self.nint = H_nint
+    self.nrel = H_nrel
+    self.ne = H_ne
+    self.transitions = numpy.zeros((H_trows, 2), dtype=int)
+    self.relaxations = [None] * H_nrelax
+    self.sides = numpy.zeros(H_srows, dtype=numpy.int16)
+    self.states = numpy.zeros((H_strows, 2), dtype=int)
+    self.dmoments = numpy.zeros((H_drows, 3))
+    self.energy = numpy.zeros(H_erows)
+    self.frequency = numpy.zeros(H_frows)
+    self.pref = -1.0
+    self.evolfac = H_evf
+    self.widths = None
+    self.dephs = None
+    self.popt_band = popt_band
+    self.F4n = numpy.zeros(3)
+    self.built = False
+"""
+
+T_ADD_TRANSITION = """
+def add_transition(self, transition, side, interval, width, deph):
+    nf = transition[H_nf]
+    ni = transition[H_ni]
+    sd = H_sd
+    text = ["right", "left"]
+    if self.current[H_chk] != H_chkv:
+        raise Exception(H_msg)
+    self.transitions[H_ti, :] = transition
+    self.sides[H_si] = H_sv
+    if interval > H_ilo:
+        if self.widths is None:
+            self.widths = numpy.zeros(H_wlen, qr.REAL)
+            self.widths[:] = H_winit
+            self.dephs = numpy.zeros(H_glen, qr.REAL)
+            self.dephs[:] = H_ginit
+        self.widths[H_wi] = H_wv
+        self.dephs[H_gi] = H_gv
+    self.current[H_cu] = H_cuv
+    self.states[self.ne, 0] = self.current[0]
+    self.states[self.ne, 1] = self.current[1]
+    self.energy[self.nint] = self.aggregate.HH[nf, nf] - self.aggregate.HH[ni, ni]
+    self.dmoments[H_di, :] = self.aggregate.DD[H_d1, H_d2, :]
+    if H_fa < H_fb:
+        nl = self.current[H_nl]
+        np = self.current[H_np]
+        el = self.aggregate.HH[H_el1, H_el2]
+        ep = self.aggregate.HH[H_ep1, H_ep2]
+        self.frequency[H_fi] = H_fv
+    elif self.nint > self.order:
+        etext = H_etext
+        raise Exception(etext)
+    self.nint += H_dn
+    self.event[self.ne] = "I"
+    self.ne += H_de
+"""
+
+T_ADD_TRANSFER = """
+def add_transfer(self, fin, sta):
+    nfl = fin[H_a]
+    nfr = fin[H_b]
+    nil = sta[H_c]
+    nir = sta[H_d]
+    if self.current[H_k0] != H_v0 or self.current[H_k1] != H_v1:
+        raise Exception(H_msg)
+    if H_ra < H_rb:
+        self.relaxations[self.nrel] = (fin, sta)
+    else:
+        raise Exception(H_msg2)
+    self.current[H_u0] = H_w0
+    self.current[H_u1] = H_w1
+    self.states[self.ne, 0] = self.current[0]
+    self.states[self.ne, 1] = self.current[1]
+    el = self.aggregate.HH[H_e1, H_e2]
+    ep = self.aggregate.HH[H_p1, H_p2]
+    self.frequency[H_fi] = H_fv
+    self.nrel += H_dr
+    self.event[self.ne] = "R"
+    self.ne += H_de
+"""
+
+T_SET_EVF = """
+def set_evolution_factor(self, evf):
+    self.evolfac = H_v
+"""
+
+OBJ_FILE = """
+  (* ---- liouville_pathway.__init__ ---- *)
+  Definition g_new (c : xcall) : lp :=
+    let sinit := c_sinit c in
+    let cur1 := put %(c0)s (0%%nat, 0%%nat) %(cv0)s in
+    let cur2 := put %(c1)s cur1 %(cv1)s in
+    mkLp c cur2 %(nint)s %(nrel)s %(ne)s (fun _ => (0%%nat, 0%%nat)) (fun _ => 0%%Z) (fun _ => vzero) (fun _ => 0) None %(evf)s.
+  Definition g_rows (c : xcall) : nat := %(rows)s.          (* rows of transitions, sides, dmoments, energy *)
+  Definition g_slots (c : xcall) : nat := %(slots)s.        (* entries of frequency, states, event *)
+  Definition g_nrelax (c : xcall) : nat := %(nrelax)s.      (* entries of relaxations *)
+  Lemma g_new_is_model (c : xcall) : g_new c = lp_new c.
+  Proof. reflexivity. Qed.
+  Lemma g_rows_is_model (c : xcall) : g_rows c = S (c_order c).
+  Proof. unfold g_rows. lia. Qed.
+  Lemma g_slots_is_model (c : xcall) : g_slots c = nslots c.
+  Proof. unfold g_slots, nslots. lia. Qed.
+  Lemma g_nrelax_is_model (c : xcall) : g_nrelax c = c_relax c.
+  Proof. unfold g_nrelax. lia. Qed.
+
+  (* ---- liouville_pathway.add_transition ---- *)
+  Definition g_add_transition (Sy : sys) (l : lp) (transition : nat * nat) (side : Z) (interval : nat) (width deph : R) : option lp :=
+    let c := l_call l in
+    let nf := %(nf)s transition in
+    let ni := %(ni)s transition in
+    let sd := %(sd)s in
+    match pick %(chk)s (l_cur l) with
+    | None => None
+    | Some c0 =>
+      if negb (Nat.eqb c0 %(chkv)s) then None
+      else if negb (Nat.ltb %(ti)s (g_rows c)) then None
+      else
+        match (if Nat.ltb %(ilo)s interval
+               then (if Nat.ltb %(wi)s %(wlen)s
+                     then Some (Some (match l_wd l with
+                                      | None => (upd (fun _ => %(winit)s) %(wi)s %(wv)s, upd (fun _ => %(ginit)s) %(gi)s %(gv)s)
+                                      | Some wg => (upd (fst wg) %(wi)s %(wv)s, upd (snd wg) %(gi)s %(gv)s)
+                                      end))
+                     else None)
+               else Some (l_wd l)) with
+        | None => None
+        | Some wd' =>
+          let cur' := put %(cu)s (l_cur l) %(cuv)s in
+          if negb (Nat.ltb (l_ne l) (g_slots c)) then None
+          else Some (mkLp c cur' (%(dn)s + l_nint l) (l_nrel l) (%(de)s + l_ne l)
+                          (upd (l_trans l) %(ti)s transition) (upd (l_sides l) %(si)s %(sv)s)
+                          (upd (l_dm l) %(di)s (DD Sy %(d1)s %(d2)s))
+                          (if Nat.ltb %(fa)s %(fb)s
+                           then (let nl := %(nl)s cur' in let np := %(np)s cur' in
+                                 let el := En Sy %(el)s in let ep := En Sy %(ep)s in
+                                 upd (l_freq l) %(fi)s %(fv)s)
+                           else l_freq l)
+                          wd' (l_evf l))
+        end
+    end.
+  Lemma g_add_transition_is_model (Sy : sys) (l : lp) nf ni side interval w g :
+    g_add_transition Sy l (nf, ni) side interval w g = add_transition Sy l nf ni side interval w g.
+  Proof. unfold g_add_transition, add_transition. rewrite g_rows_is_model, g_slots_is_model. reflexivity. Qed.
+
+  (* ---- liouville_pathway.add_transfer ---- *)
+  Definition g_add_transfer (Sy : sys) (l : lp) (fin sta : nat * nat) : option lp :=
+    let c := l_call l in
+    let nfl := %(xa)s fin in let nfr := %(xb)s fin in let nil := %(xc)s sta in let nir := %(xd)s sta in
+    if negb (Nat.eqb (%(k0)s (l_cur l)) %(v0)s && Nat.eqb (%(k1)s (l_cur l)) %(v1)s) then None
+    else if negb (Nat.ltb %(ra)s %(rb)s) then None
+    else if negb (Nat.ltb (l_ne l) (g_slots c)) then None
+    else let cur1 := put %(u0)s (l_cur l) %(w0)s in
+         let cur2 := put %(u1)s cur1 %(w1)s in
+         Some (mkLp c cur2 (l_nint l) (%(dr)s + l_nrel l) (%(xde)s + l_ne l) (l_trans l) (l_sides l) (l_dm l)
+                    (let el := En Sy %(xel)s in let ep := En Sy %(xep)s in upd (l_freq l) %(xfi)s %(xfv)s) (l_wd l) (l_evf l)).
+  Lemma g_add_transfer_is_model (Sy : sys) (l : lp) fl fr sl sr :
+    g_add_transfer Sy l (fl, fr) (sl, sr) = add_transfer Sy l fl fr sl sr.
+  Proof. unfold g_add_transfer, add_transfer. rewrite g_slots_is_model. reflexivity. Qed.
+
+  (* ---- liouville_pathway.set_evolution_factor ---- *)
+  Definition g_set_evf (l : lp) (evf : R) : lp :=
+    mkLp (l_call l) (l_cur l) (l_nint l) (l_nrel l) (l_ne l) (l_trans l) (l_sides l) (l_dm l) (l_freq l) (l_wd l) %(sev)s.
+  Lemma g_set_evf_is_model (l : lp) e : g_set_evf l e = set_evf l e.
+  Proof. reflexivity. Qed.
+
+  (* the machine with the generated steps is the machine of Model/C12x.v *)
+  Definition g_step (Sy : sys) (l : lp) (o : xop) : option lp :=
+    match o with
+    | XT nf ni s k w g => g_add_transition Sy l (nf, ni) s k w g
+    | XX fl fr sl sr => g_add_transfer Sy l (fl, fr) (sl, sr)
+    | XE e => Some (g_set_evf l e)
+    end.
+  Lemma g_step_is_model (Sy : sys) (l : lp) (o : xop) : g_step Sy l o = xstep Sy l o.
+  Proof.
+    destruct o as [nf ni s k w g|fl fr sl sr|e]; cbn [g_step xstep];
+      [apply g_add_transition_is_model|apply g_add_transfer_is_model|now rewrite g_set_evf_is_model].
+  Qed.
+"""
+
+
+def pathway_object(repo):
+    f = repo + DIA
+    out = {}
+    # ---- __init__
+    env = _match(f, "liouville_pathway.__init__", T_INIT)
+    se = SE(nats={"order": "(c_order c)", "relax_order": "(c_relax c)", "sinit": "sinit"})
+    out["c0"], out["c1"] = SE().z(env["H_c0"]), SE().z(env["H_c1"])
+    out["cv0"], out["cv1"] = se.nat(env["H_cv0"]), se.nat(env["H_cv1"])
+    for h in ("nint", "nrel", "ne"):
+        out[h] = se.nat(env["H_" + h])
+    out["rows"] = se.nat(_same(env, "H_trows", "H_srows", "H_drows", "H_erows"))
+    out["slots"] = se.nat(_same(env, "H_frows", "H_strows", "H_nevent"))
+    out["nrelax"] = se.nat(env["H_nrelax"])
+    out["evf"] = Gen.const(env["H_evf"])
+    # ---- add_transition
+    env = _match(f, "liouville_pathway.add_transition", T_ADD_TRANSITION)
+    out["nf"], out["ni"] = _comp(env["H_nf"], "transition"), _comp(env["H_ni"], "transition")
+    loc = {"nf": "nf", "ni": "ni", "interval": "interval"}
+    se = SE(nats=loc, zs={"side": "side", "sd": "sd"}, rs={"width": "width", "deph": "deph", "el": "el", "ep": "ep"})
+    out["sd"] = SE(zs={"side": "side"}).z(env["H_sd"])
+    out["chk"], out["chkv"] = se.z(env["H_chk"]), se.nat(env["H_chkv"])
+    out["ti"] = se.nat(env["H_ti"])
+    out["si"], out["sv"] = se.nat(env["H_si"]), se.z(env["H_sv"])
+    out["ilo"] = se.nat(env["H_ilo"])
+    out["wlen"] = se.nat(_same(env, "H_wlen", "H_glen"))
+    out["winit"], out["ginit"] = se.r(env["H_winit"]), se.r(env["H_ginit"])
+    out["wi"], out["gi"] = se.nat(env["H_wi"]), se.nat(env["H_gi"])
+    out["wv"], out["gv"] = se.r(env["H_wv"]), se.r(env["H_gv"])
+    out["cu"], out["cuv"] = se.z(env["H_cu"]), se.nat(env["H_cuv"])
+    out["di"], out["d1"], out["d2"] = se.nat(env["H_di"]), se.nat(env["H_d1"]), se.nat(env["H_d2"])
+    out["fa"], out["fb"] = se.nat(env["H_fa"]), se.nat(env["H_fb"])
+    out["nl"], out["np"] = _comp(env["H_nl"], "current"), _comp(env["H_np"], "current")
+    se2 = SE(nats=dict(loc, nl="nl", np="np"), rs={"el": "el", "ep": "ep", "width": "width", "deph": "deph"})
+    out["el"] = se2.nat(_same(env, "H_el1", "H_el2"))         # HH[x, x]: a diagonal element
+    out["ep"] = se2.nat(_same(env, "H_ep1", "H_ep2"))
+    out["fi"], out["fv"] = se2.nat(env["H_fi"]), se2.r(env["H_fv"])
+    out["dn"], out["de"] = se.nat(env["H_dn"]), se.nat(env["H_de"])
+    # ---- add_transfer
+    env = _match(f, "liouville_pathway.add_transfer", T_ADD_TRANSFER)
+    for h, k in (("H_a", "xa"), ("H_b", "xb"), ("H_c", "xc"), ("H_d", "xd"), ("H_k0", "k0"), ("H_k1", "k1")):
+        out[k] = _comp(env[h], "pair")
+    se = SE(nats={"nfl": "nfl", "nfr": "nfr", "nil": "nil", "nir": "nir"}, rs={"el": "el", "ep": "ep"})
+    out["v0"], out["v1"] = se.nat(env["H_v0"]), se.nat(env["H_v1"])
+    out["ra"], out["rb"] = se.nat(env["H_ra"]), se.nat(env["H_rb"])
+    out["u0"], out["u1"] = se.z(env["H_u0"]), se.z(env["H_u1"])
+    out["w0"], out["w1"] = se.nat(env["H_w0"]), se.nat(env["H_w1"])
+    out["xel"] = se.nat(_same(env, "H_e1", "H_e2"))
+    out["xep"] = se.nat(_same(env, "H_p1", "H_p2"))
+    out["xfi"], out["xfv"] = se.nat(env["H_fi"]), se.r(env["H_fv"])
+    out["dr"], out["xde"] = se.nat(env["H_dr"]), se.nat(env["H_de"])
+    # ---- set_evolution_factor
+    env = _match(f, "liouville_pathway.set_evolution_factor", T_SET_EVF)
+    out["sev"] = SE(rs={"evf": "evf"}).r(env["H_v"])
+    return OBJ_FILE % out
+
+
+# =============================================================================================== orientational factor
+class VE:
+    """scalar expressions over rows of small arrays: numpy.dot(X[i,:], Y[j,:]), products, sums, numpy.real"""
+
+    def __init__(self, fams=None, vecs=None, scal=None):
+        self.fams, self.vecs, self.scal = dict(fams or {}), dict(vecs or {}), dict(scal or {})
+
+    def vec(self, node):
+        k = U(node)
+        if k in self.vecs:
+            return self.vecs[k]
+        if isinstance(node, ast.Subscript) and U(node.value) in self.fams:
+            idxs = list(node.slice.elts) if isinstance(node.slice, ast.Tuple) else [node.slice]
+            if len(idxs) == 2 and U(idxs[1]) == ":":
+                return "(%s %d%%nat)" % (self.fams[U(node.value)], _intconst(idxs[0], "row", 0))
+        raise Untranslatable("vector %s" % k)
+
+    def s(self, node):
+        k = U(node)
+        if k in self.scal:
+            return self.scal[k]
+        if isinstance(node, ast.Call) and U(node.func) == "numpy.dot" and len(node.args) == 2 and not node.keywords:
+            return "(dot %s %s)" % (self.vec(node.args[0]), self.vec(node.args[1]))
+        if isinstance(node, ast.Call) and U(node.func) == "numpy.real" and len(node.args) == 1 and not node.keywords:
+            return self.s(node.args[0])
+        if isinstance(node, ast.BinOp):
+            op = {ast.Add: "+", ast.Sub: "-", ast.Mult: "*"}.get(type(node.op))
+            if op:
+                return "(%s %s %s)" % (self.s(node.left), op, self.s(node.right))
+        raise Untranslatable("scalar expression %s" % k[:80])
+
+
+def _unify_stmts(template_src, stmts, what):
+    env = {}
+    unify(ast.parse(template_src).body, stmts, env, what)
+    return env
+
+
+def _order_branch(fn, what):
+    """`if self.order == K: BODY [elif ...]` -> (K node, BODY); the other branches are not executed for that order"""
+    ifs = [s for s in _strip(fn.body) if isinstance(s, ast.If)]
+    if len(ifs) != 1:
+        raise Untranslatable("%s: %d if statements" % (what, len(ifs)))
+    s = ifs[0]
+    if not (isinstance(s.test, ast.Compare) and len(s.test.ops) == 1 and isinstance(s.test.ops[0], ast.Eq)
+            and U(s.test.left) == "self.order"):
+        raise Untranslatable("%s: test %s" % (what, U(s.test)))
+    return s, s.test.comparators[0]
+
+
+ORIENT_FILE = """
+  (* ---- liouville_pathway.build (third order): F4n and the sign ---- *)
+  Definition g_build_order : nat := %(bord)s.
+  Definition g_F4n (d : nat -> vec3) : vec3 := (%(f0)s, %(f1)s, %(f2)s).
+  Definition g_sign (c : xcall) (sides : nat -> Z) : Z := fold_right Z.mul 1%%Z (map sides (seq 0 (g_rows c))).   (* %(signsrc)s *)
+  Lemma g_F4n_is_model (d : nat -> vec3) : g_build_order = 3%%nat /\\ g_F4n d = F4 (d 0%%nat) (d 1%%nat) (d 2%%nat) (d 3%%nat).
+  Proof. split; [reflexivity|]. unfold g_F4n, F4, dot. apply vec3_eq; ring. Qed.
+  Lemma g_sign_is_model (c : xcall) (sides : nat -> Z) : c_order c = 3%%nat ->
+    g_sign c sides = (sides 0%%nat * sides 1%%nat * sides 2%%nat * sides 3%%nat)%%Z.
+  Proof. intros H. unfold g_sign. rewrite g_rows_is_model, H. cbn [seq map fold_right]. ring. Qed.
+
+  (* ---- liouville_pathway.orientational_averaging (third order): the prefactor ---- *)
+  Definition g_oa_order : nat := %(oord)s.
+  Definition g_n0 (trans : nat -> nat * nat) : nat := %(n0c)s (trans %(n0r)s).
+  Definition g_pref (FM F4n : vec3) (sign rho0 evolfac : R) : R := %(pref)s.
+  Lemma g_pref_is_model (FM : vec3) (p : pway) (trans : nat -> nat * nat) :
+    g_oa_order = 3%%nat /\\ g_n0 trans = snd (trans 0%%nat) /\\
+    g_pref FM (pw_F4n p) (pw_sign p) (pw_rho p) (pw_evf p) = pref FM p.
+  Proof. split; [reflexivity|]. split; [reflexivity|]. unfold g_pref, pref, dot. ring. Qed.
+
+  (* ---- LabSetup.__init__: M4; set_pulse_polarizations: e, F4e, F4eM4 ---- *)
+  Definition g_M4_num : list (list Z) := %(m4)s.
+  Definition g_M4_den : Z := %(den)s.
+  (* th stands for 1 / g_M4_den *)
+  Definition g_M4 (th : R) (i j : nat) : R := th * z2r (nth j (nth i g_M4_num []) 0%%Z).
+  Definition g_e (pp : nat -> vec3) (det : vec3) : nat -> vec3 :=
+    upd (fun %(lv)s => if Nat.ltb %(lv)s %(nloop)s then pp %(lsrc)s else vzero) %(detrow)s det.
+  Definition g_F4e (e : nat -> vec3) : vec3 := (%(e0)s, %(e1)s, %(e2)s).
+  Definition g_F4eM4 (th : R) (F4e : vec3) : vec3 := %(fm)s.
+  Lemma g_lab_is_model (th : R) (pp : nat -> vec3) (det : vec3) :
+    g_M4_den = 30%%Z /\\
+    g_F4eM4 th (g_F4e (g_e pp det)) = lab_FM th (pp 0%%nat) (pp 1%%nat) (pp 2%%nat) det.
+  Proof.
+    split; [reflexivity|].
+    assert (He : g_F4e (g_e pp det) = F4 (pp 0%%nat) (pp 1%%nat) (pp 2%%nat) det).
+    { unfold g_F4e, g_e, upd, F4, dot. cbn [Nat.eqb Nat.ltb Nat.leb]. apply vec3_eq; ring. }
+    rewrite He. unfold lab_FM. generalize (F4 (pp 0%%nat) (pp 1%%nat) (pp 2%%nat) det). intros f.
+    unfold g_F4eM4, vecmat, matvec, g_M4, g_M4_num, F4eM4. cbn [nth z2r p2r]. unfold four, two. apply vec3_eq; ring.
+  Qed.
+"""
+
+
+def orientation(repo):
+    out = {}
+    # ---- build
+    fn = _src_of(repo + DIA, "liouville_pathway.build")
+    body = _strip(fn.body)
+    if not (len(body) == 3 and U(body[0]) == "d = self.dmoments" and U(body[2]) == "self.built = True"):
+        raise Untranslatable("build: statements around the order test")
+    br, k = _order_branch(fn, "build")
+    out["bord"] = "%d%%nat" % _intconst(k, "order", 0)
+    env = _unify_stmts("self.F4n[0] = H_f0\nself.F4n[1] = H_f1\nself.F4n[2] = H_f2\nself.sign = H_sign", br.body, "build")
+    ve = VE(fams={"d": "d"})
+    for h in ("f0", "f1", "f2"):
+        out[h] = ve.s(env["H_" + h])
+    if U(env["H_sign"]) != "numpy.prod(self.sides)":
+        raise Untranslatable("build: sign = %s" % U(env["H_sign"]))
+    out["signsrc"] = U(env["H_sign"])
+    # ---- orientational_averaging
+    fn = _src_of(repo + DIA, "liouville_pathway.orientational_averaging")
+    if [a.arg for a in fn.args.args] != ["self", "lab"]:
+        raise Untranslatable("orientational_averaging: signature")
+    body = _strip(fn.body)
+    if len(body) != 2:
+        raise Untranslatable("orientational_averaging: %d statements" % len(body))
+    env = _unify_stmts("n0 = self.transitions[H_r, H_c]", [body[0]], "orientational_averaging")
+    out["n0r"], out["n0c"] = "%d%%nat" % _intconst(env["H_r"], "row", 0), _comp(env["H_c"], "transition")
+    br, k = _order_branch(fn, "orientational_averaging")
+    out["oord"] = "%d%%nat" % _intconst(k, "order", 0)
+    env = _unify_stmts("self.pref = H_pref", br.body, "orientational_averaging")
+    ve = VE(vecs={"lab.F4eM4": "FM", "self.F4n": "F4n"},
+            scal={"self.sign": "sign", "self.evolfac": "evolfac", "self.aggregate.rho0[n0, n0]": "rho0"})
+    out["pref"] = ve.s(env["H_pref"])
+    # ---- LabSetup.__init__: self.M4 = numpy.array([[...],[...],[...]]) / den
+    fn = _src_of(repo + LAB, "LabSetup.__init__")
+    m4 = [s for s in ast.walk(fn) if isinstance(s, ast.Assign) and len(s.targets) == 1 and U(s.targets[0]) == "self.M4"]
+    if len(m4) != 1:
+        raise Untranslatable("LabSetup.__init__: M4 assigned %d times" % len(m4))
+    env = _unify_stmts("self.M4 = numpy.array(H_rows) / H_den", m4, "LabSetup.__init__")
+
+    def zconst(node):
+        sign = 1
+        if isinstance(node, ast.UnaryOp) and isinstance(node.op, ast.USub):
+            sign, node = -1, node.operand
+        if isinstance(node, ast.Constant) and isinstance(node.value, (int, float)) and not isinstance(node.value, bool) \
+                and float(node.value) == int(node.value):
+            return sign * int(node.value)
+        raise Untranslatable("M4 entry %s" % U(node))
+    rows = env["H_rows"]
+    if not (isinstance(rows, ast.List) and len(rows.elts) == 3 and all(isinstance(r, ast.List) and len(r.elts) == 3 for r in rows.elts)):
+        raise Untranslatable("M4 literal %s" % U(rows))
+    out["m4"] = "[%s]" % "; ".join("[%s]" % "; ".join("(%d)%%Z" % zconst(e) for e in r.elts) for r in rows.elts)
+    out["den"] = "(%d)%%Z" % zconst(env["H_den"])
+    # ---- set_pulse_polarizations
+    fn = _src_of(repo + LAB, "LabSetup.set_pulse_polarizations")
+    if [a.arg for a in fn.args.args] != ["self", "pulse_polarizations", "detection_polarization"]:
+        raise Untranslatable("set_pulse_polarizations: signature")
+    body = _strip(fn.body)
+    if not (len(body) == 2 and isinstance(body[0], ast.If) and U(body[0].test) == "len(pulse_polarizations) == self.number_of_pulses"
+            and U(body[1]) == "self.detection_polarization = detection_polarization"
+            and isinstance(_strip(body[0].orelse)[-1], ast.Raise)):
+        raise Untranslatable("set_pulse_polarizations: statements around the computation")
+    env = _unify_stmts("self.e = numpy.zeros((4, 3))\nfor i in range(H_n):\n    self.e[H_row, :] = pulse_polarizations[H_src]\n"
+                       "self.e[H_det, :] = detection_polarization\ne = self.e\nF4e = numpy.zeros(3)\n"
+                       "F4e[0] = H_e0\nF4e[1] = H_e1\nF4e[2] = H_e2\nself.F4eM4 = numpy.dot(H_a, H_b)", body[0].body,
+                       "set_pulse_polarizations")
+    if not (isinstance(env["H_row"], ast.Name) and env["H_row"].id == "i" and isinstance(env["H_src"], ast.Name) and env["H_src"].id == "i"):
+        raise Untranslatable("set_pulse_polarizations: e[%s] = pulse_polarizations[%s]" % (U(env["H_row"]), U(env["H_src"])))
+    out["lv"], out["lsrc"] = "k", "k"
+    out["nloop"] = "%d%%nat" % _intconst(env["H_n"], "range", 0)
+    out["detrow"] = "%d%%nat" % _intconst(env["H_det"], "row", 0)
+    ve = VE(fams={"e": "e"})
+    for h in ("e0", "e1", "e2"):
+        out[h] = ve.s(env["H_" + h])
+    a, b = U(env["H_a"]), U(env["H_b"])
+    if (a, b) == ("F4e", "self.M4"):
+        out["fm"] = "vecmat F4e (g_M4 th)"
+    elif (a, b) == ("self.M4", "F4e"):
+        out["fm"] = "matvec (g_M4 th) F4e"
+    else:
+        raise Untranslatable("set_pulse_polarizations: F4eM4 = numpy.dot(%s, %s)" % (a, b))
+    return ORIENT_FILE % out
+
+
+# =============================================================================================== the mock calculator
+class _ConstFold(ast.NodeTransformer):
+    def __init__(self, name, value):
+        self.name, self.value = name, value
+
+    def visit_Name(self, n):
+        if n.id == self.name and isinstance(n.ctx, ast.Load):
+            return ast.copy_location(ast.Constant(self.value), n)
+        return n
+
+
+def _live_deep(stmts):
+    out = []
+    for s in _live(stmts):
+        if isinstance(s, ast.If):
+            s.body, s.orelse = _live_deep(s.body), _live_deep(s.orelse)
+        out.append(s)
+    return out
+
+
+T_CALC_PATHWAY = """
+def calculate_pathway(self, pathway, shape):
+    if pathway is None:
+        N1 = self.oa1.length
+        N3 = self.oa3.length
+        reph2D = numpy.zeros((N1, N3), dtype=COMPLEX)
+        return reph2D
+    oldv = False
+    noe = H_noe
+    cen1 = pathway.frequency[H_i1]
+    cen3 = pathway.frequency[H_i3]
+    pref = pathway.pref
+    N1 = self.oa1.length
+    N3 = self.oa3.length
+    if H_tx < 0.0:
+        widthx = H_dx
+    else:
+        widthx = H_vx
+    if H_ty < 0.0:
+        widthy = H_dy
+    else:
+        widthy = H_vy
+    if H_tgx < 0.0:
+        dephx = H_dgx
+    else:
+        dephx = H_vgx
+    if H_tgy < 0.0:
+        dephy = H_dgy
+    else:
+        dephy = H_vgy
+    prefk = 4.0 * numpy.log(2.0)
+    if pathway.pathway_type == H_pt1:
+        reph2D = numpy.zeros((N1, N3), dtype=COMPLEX)
+        if shape == H_sa1:
+            oo3 = self.oa3.data[:]
+            oo1 = H_oa1
+            reph2D = pref * H_fa1(oo1, H_a11, H_a12, oo3, H_a13, H_a14)
+        elif shape == H_sb1:
+            oo3 = self.oa3.data[:]
+            oo1 = H_ob1
+            reph2D = pref * H_fb1(oo1, H_b11, H_b12, oo3, H_b13, H_b14)
+        else:
+            raise Exception(H_m1)
+        return reph2D
+    elif pathway.pathway_type == H_pt2:
+        nonr2D = numpy.zeros((N1, N3), dtype=COMPLEX)
+        if shape == H_sa2:
+            oo3 = self.oa3.data[:]
+            oo1 = H_oa2
+            nonr2D = pref * H_fa2(oo1, H_a21, H_a22, oo3, H_a23, H_a24)
+        elif shape == H_sb2:
+            oo3 = self.oa3.data[:]
+            oo1 = H_ob2
+            nonr2D = pref * H_fb2(oo1, H_b21, H_b22, oo3, H_b23, H_b24)
+        else:
+            raise Exception(H_m2)
+        return nonr2D
+"""
+
+T_CALC_ONE = """
+def calculate_one(self, tc):
+    onetwod = TwoDResponse()
+    onetwod.set_axis_1(self.oa1)
+    onetwod.set_axis_3(self.oa3)
+    onetwod.set_resolution(H_res)
+    pwy = None
+    data = self.calculate_pathway(pwy, shape=self.shape)
+    onetwod._add_data(data, dtype=H_s0)
+    onetwod._add_data(data, dtype=H_s1)
+    if self.pathways is not None:
+        for pwy in self.pathways:
+            data = self.calculate_pathway(pwy, shape=self.shape)
+            if pwy.pathway_type == H_t1:
+                onetwod._add_data(data, dtype=H_d1)
+            elif pwy.pathway_type == H_t2:
+                onetwod._add_data(data, dtype=H_d2)
+            else:
+                raise Exception(H_msg)
+    onetwod.set_t2(self.t2axis.data[tc])
+    return onetwod
+"""
+
+CALC_FILE = """
+  (* ---- MockTwoDResponseCalculator.calculate_pathway ---- *)
+  Section GenCalc.
+    Variable L : bool -> bool -> R -> R -> R -> R -> R.   (* gaussian2D (true) / lorentzian2D (false); first axis negated (true) or not;
+                                                             centre and width on the first axis, centre and width on the third *)
+    Variable neg : R -> bool.                             (* x < 0.0 *)
+    Variables dwx dwy dgx dgy : R.                        (* self.widthx, self.widthy, self.dephx, self.dephy *)
+    Definition g_i1 : nat := %(i1)s.
+    Definition g_i3 (order relax : nat) : nat := let noe := %(noe)s in %(i3)s.
+    Definition g_widthx (w1 w3 g1 g3 : R) : R := if neg %(tx)s then %(dx)s else %(vx)s.
+    Definition g_widthy (w1 w3 g1 g3 : R) : R := if neg %(ty)s then %(dy)s else %(vy)s.
+    Definition g_dephx (w1 w3 g1 g3 : R) : R := if neg %(tgx)s then %(dgx)s else %(vgx)s.
+    Definition g_dephy (w1 w3 g1 g3 : R) : R := if neg %(tgy)s then %(dgy)s else %(vgy)s.
+    (* None = the call raises, or falls off the end of the function *)
+    Definition g_value (ptype shape : string) (pref cen1 cen3 widthx widthy dephx dephy : R) : option R :=
+      if String.eqb ptype %(pt1)s then
+        (if String.eqb shape %(sa1)s then Some (pref * %(ca1)s)
+         else if String.eqb shape %(sb1)s then Some (pref * %(cb1)s) else None)
+      else if String.eqb ptype %(pt2)s then
+        (if String.eqb shape %(sa2)s then Some (pref * %(ca2)s)
+         else if String.eqb shape %(sb2)s then Some (pref * %(cb2)s) else None)
+      else None.
+    Definition shape_name (gauss : bool) : string := if gauss then "Gaussian"%%string else "Lorentzian"%%string.
+    Definition ptype_name (reph : bool) : string := if reph then "R"%%string else "NR"%%string.
+    Lemma g_centres_are_model (c : xcall) : g_i1 = 0%%nat /\\ g_i3 (c_order c) (c_relax c) = (nslots c - 2)%%nat.
+    Proof. split; [reflexivity|]. unfold g_i3, nslots. lia. Qed.
+    Lemma g_calculate_pathway_is_model (gauss : bool) (FM : vec3) (p : pway) :
+      let w1 := pw_w1 p in let w3 := pw_w3 p in let g1 := pw_g1 p in let g3 := pw_g3 p in
+      g_value (ptype_name (pw_reph p)) (shape_name gauss) (pref FM p) (nth 0 (pw_freq p) 0) (nth (List.length (pw_freq p) - 2) (pw_freq p) 0)
+              (g_widthx w1 w3 g1 g3) (g_widthy w1 w3 g1 g3) (g_dephx w1 w3 g1 g3) (g_dephy w1 w3 g1 g3)
+      = Some (contrib4 L neg dwx dwy dgx dgy gauss FM p).
+    Proof.
+      cbv zeta. unfold g_value, contrib4, calc_args4, sel4, g_widthx, g_widthy, g_dephx, g_dephy, ptype_name, shape_name.
+      destruct (pw_reph p), gauss; cbn [String.eqb Ascii.eqb Bool.eqb]; reflexivity.
+    Qed.
+  End GenCalc.
+
+  (* ---- MockTwoDResponseCalculator.calculate_one: bookkeeping of the signals ---- *)
+  Definition g_signal_of (ptype : string) : option signal :=
+    if String.eqb ptype %(t1)s then Some %(d1)s else if String.eqb ptype %(t2)s then Some %(d2)s else None.
+  Definition g_calc_head : list (@op R) := [OSetRes %(res)s; OAdd 0 None (DS %(s0)s) None; OAdd 0 None (DS %(s1)s) None].
+  Lemma g_calculate_one_is_model L neg dflt gauss (FM : vec3) (ps : list pway) :
+    (forall b : bool, g_signal_of (ptype_name b) = Some (if b then REPH else NONR)) /\\
+    g_calc_head ++ map (fun p => OAdd (contrib L neg dflt gauss FM p) None (DS (if pw_reph p then REPH else NONR)) None) ps
+      = calc_ops L neg dflt gauss FM ps.
+  Proof. split; [intros []; reflexivity|reflexivity]. Qed.
+"""
+
+
+def calculator(repo):
+    f = repo + MOCK
+    out = {}
+    fn = _src_of(f, "MockTwoDResponseCalculator.calculate_pathway")
+    olds = [s for s in ast.walk(fn) if isinstance(s, ast.Assign) and any(U(x) == "oldv" for x in s.targets)]
+    stores = [n for n in ast.walk(fn) if isinstance(n, ast.Name) and n.id == "oldv" and not isinstance(n.ctx, ast.Load)]
+    if not (len(olds) == 1 and len(stores) == 1 and isinstance(olds[0].value, ast.Constant) and olds[0].value.value is False):
+        raise Untranslatable("calculate_pathway: the switch `oldv` is not the constant False")
+    fn = _ConstFold("oldv", False).visit(fn)
+    fn.body = _live_deep(fn.body)
+    tfn = ast.parse(T_CALC_PATHWAY).body[0]
+    env = {}
+    unify([a.arg for a in tfn.args.args], [a.arg for a in fn.args.args], env, "calculate_pathway.args")
+    unify(tfn.body, fn.body, env, "calculate_pathway")
+    se = SE(nats={"pathway.order": "order", "pathway.relax_order": "relax", "noe": "noe"})
+    out["noe"] = se.nat(env["H_noe"])
+    out["i1"] = se.nat(env["H_i1"])
+    i3 = env["H_i3"]
+    if isinstance(i3, ast.BinOp) and isinstance(i3.op, ast.Sub):
+        out["i3"] = "(%s - %s)%%nat" % (se.nat(i3.left), se.nat(i3.right))
+    else:
+        out["i3"] = se.nat(i3)
+    tab = {"pathway.widths[1]": "w1", "pathway.widths[3]": "w3", "pathway.dephs[1]": "g1", "pathway.dephs[3]": "g3",
+           "self.widthx": "dwx", "self.widthy": "dwy", "self.dephx": "dgx", "self.dephy": "dgy"}
+
+    def val(node):
+        k = U(node)
+        if k not in tab:
+            raise Untranslatable("calculate_pathway: width expression %s" % k)
+        return tab[k]
+    for h in ("tx", "dx", "vx", "ty", "dy", "vy", "tgx", "dgx", "vgx", "tgy", "dgy", "vgy"):
+        out[h] = val(env["H_" + h])
+
+    def strc(node, what):
+        if isinstance(node, ast.Constant) and isinstance(node.value, str):
+            return _coqstr(node.value)
+        raise Untranslatable("calculate_pathway: %s %s" % (what, U(node)))
+    for h in ("pt1", "pt2", "sa1", "sb1", "sa2", "sb2"):
+        out[h] = strc(env["H_" + h], "string")
+    loc = {"cen1": "cen1", "cen3": "cen3", "widthx": "widthx", "widthy": "widthy", "dephx": "dephx", "dephy": "dephy"}
+    for tag in ("a1", "b1", "a2", "b2"):
+        fname = env["H_f" + tag]
+        if not (isinstance(fname, ast.Name) and fname.id in ("gaussian2D", "lorentzian2D")):
+            raise Untranslatable("calculate_pathway: line-shape function %s" % U(fname))
+        axis = U(env["H_o" + tag])
+        if axis == "-self.oa1.data[:]":
+            flip = "true"
+        elif axis == "self.oa1.data[:]":
+            flip = "false"
+        else:
+            raise Untranslatable("calculate_pathway: first axis %s" % axis)
+        a = []
+        for k in (1, 2, 3, 4):
+            node = env["H_%s%d" % (tag, k)]
+            if not (isinstance(node, ast.Name) and node.id in loc):
+                raise Untranslatable("calculate_pathway: line-shape argument %s" % U(node))
+            a.append(loc[node.id])
+        out["c" + tag] = "L %s %s %s %s %s %s" % ("true" if fname.id == "gaussian2D" else "false", flip, a[0], a[1], a[2], a[3])
+    # ---- calculate_one
+    env = _match(f, "MockTwoDResponseCalculator.calculate_one", T_CALC_ONE)
+    sig = {"signal_REPH": "REPH", "signal_NONR": "NONR", "signal_DC": "DCs"}
+    for h in ("s0", "s1", "d1", "d2"):
+        k = U(env["H_" + h])
+        if k not in sig:
+            raise Untranslatable("calculate_one: signal %s" % k)
+        out[h] = sig[k]
+    out["t1"], out["t2"] = strc(env["H_t1"], "pathway type"), strc(env["H_t2"], "pathway type")
+    res = {"signals": "(Some Signals)", "processes": "(Some Processes)", "types": "(Some Types)", "pathways": "(Some Pathways)", "off": "(Some Off)"}
+    if not (isinstance(env["H_res"], ast.Constant) and env["H_res"].value in res):
+        raise Untranslatable("calculate_one: resolution %s" % U(env["H_res"]))
+    out["res"] = res[env["H_res"].value]
+    return CALC_FILE % out
+
 HEAD = """(* GENERATED on every run by harness/translate_c12.py from the current source of
    quantarhei/builders/aggregate_spectroscopy.py, quantarhei/spectroscopy/diagramatics.py, labsetup.py, mocktwodcalculator.py.
    Every index, bound, side, constant, operand and condition below is the translation of an expression of the source. *)
@@ -498,6 +1379,7 @@ Section GenC12.
   Notation xop := (@xop R).
   Notation vec3 := (@vec3 R).
   Notation pway := (@pway R).
+  Notation lp := (@lp R).
 """
 
 GEN_LEMMAS = """
@@ -518,5 +1400,17 @@ def static(repo):
         text += GEN_LEMMAS % {"t": tag}
     what += ["aggregate_spectroscopy.py:%s (loop nest, tests, pathway program; handler: %s)" % (f, handlers[t]) for f, t in GENERATORS]
     what.append("aggregate_spectroscopy.py:_generate_R1g (inlined)")
+    text += dispatch(repo) + type_tuples(repo) + DISPATCH_LEMMAS
+    what += ["aggregate_spectroscopy.py:AggregateSpectroscopy.liouville_pathways_3T (dispatch, argument passing; glue verbatim)",
+             "mocktwodcalculator.py:MockTwoDResponseCalculator.calculate_one_system (requested pathway types)"]
+    text += pathway_object(repo)
+    what += ["diagramatics.py:liouville_pathway.__init__ (initial state, array sizes)", "diagramatics.py:liouville_pathway.add_transition",
+             "diagramatics.py:liouville_pathway.add_transfer", "diagramatics.py:liouville_pathway.set_evolution_factor"]
+    text += orientation(repo)
+    what += ["diagramatics.py:liouville_pathway.build (F4n, sign)", "diagramatics.py:liouville_pathway.orientational_averaging (prefactor)",
+             "labsetup.py:LabSetup.__init__ (M4)", "labsetup.py:LabSetup.set_pulse_polarizations (e, F4e, F4eM4)"]
+    text += calculator(repo)
+    what += ["mocktwodcalculator.py:MockTwoDResponseCalculator.calculate_pathway (centres, width selection, type / shape dispatch)",
+             "mocktwodcalculator.py:MockTwoDResponseCalculator.calculate_one (signal bookkeeping)"]
     text += "End GenC12.\n"
     return text, what
